@@ -128,7 +128,7 @@ func (p *c06prog) compile() {
 	}
 }
 
-var c06words = []string{"banana", "ananas", "12-34", "x.x", "a1b22", "an", "a", "b", "xa", "Ban", "zzz", "nana", " ", "\n", "\t", "7", "x", "\r\n", "aaa", "ab"}
+var c06words = []string{"banana", "ananas", "12-34", "x.x", "a1b22", "an", "a", "b", "xa", "Ban", "zzz", "nana", " ", "\n", "\t", "7", "x", "\r\n", "aaa", "ab", "50%", "%d an", "\"q\"", "a\\b", "é", "%s"}
 
 func c06content(t *Tape, size int) []byte {
 	var b []byte
